@@ -1,6 +1,6 @@
 (* Properties_C18.v — C18: the remaining table queries never fault on a loaded
    object, for any table bytes and any index. *)
-From ElfioV Require Import Bytes Mem Stream SectionData Strings Elfio Table Accessors Loader Load_proofs Safety_proofs.
+From ElfioV Require Import Bytes Mem Stream SectionData Strings Elfio Table Accessors Loader Load_proofs Safety_proofs Hash_proofs.
 Local Open Scope N_scope.
 
 (* [loaded_ok content k el] is what load() establishes for every byte string
@@ -55,6 +55,35 @@ Theorem C18_version_definition :
     loaded_ok content k el -> exists el1 r, verdef_get junk el sec num no = Ok (el1, r).
 Proof. exact verdef_get_total. Qed.
 Print Assumptions C18_version_definition.
+
+(* symbol lookup by name: SysV hash table, GNU hash table (whichever links to
+   the symbol table), then the linear scan — for ANY table contents: zero
+   buckets, counts and offsets pointing anywhere, chains of any shape.  The
+   hash section's bytes are bytes (< 256: they come from the file,
+   C17_data_comes_from_the_file) and the sections are below 4 GiB. *)
+Theorem C18_symbol_by_name :
+  forall junk content k el symsec name s0,
+    loaded_ok content k el -> get_sec el symsec = Some s0 -> sh_size s0 < 2 ^ 32 ->
+    (forall hi hs, find_hash (el_secs el) 0 (s_index s0) = Some (hi, hs) ->
+       sh_size hs < 2 ^ 32 /\ (forall el1 s1 b, sec_data junk el hi = Ok (el1, Some b, s1) -> is_bytes b)) ->
+    exists el1 r, get_symbol_by_name junk el symsec name = Ok (el1, r) /\ loaded_ok content k el1 /\ same_shape el el1.
+Proof. exact get_symbol_by_name_total. Qed.
+Print Assumptions C18_symbol_by_name.
+
+Theorem C18_sysv_hash_lookup :
+  forall junk content k el symsec hashsec name s0 h0,
+    loaded_ok content k el -> get_sec el symsec = Some s0 -> get_sec el hashsec = Some h0 ->
+    (forall el1 s1 b, sec_data junk el hashsec = Ok (el1, Some b, s1) -> is_bytes b) ->
+    exists el1 r, hash_lookup junk el symsec hashsec name = Ok (el1, r) /\ loaded_ok content k el1 /\ same_shape el el1.
+Proof. exact hash_lookup_total. Qed.
+Print Assumptions C18_sysv_hash_lookup.
+
+Theorem C18_gnu_hash_lookup :
+  forall junk content k el symsec hashsec name s0 h0,
+    loaded_ok content k el -> get_sec el symsec = Some s0 -> get_sec el hashsec = Some h0 -> sh_size h0 < 2 ^ 32 ->
+    exists el1 r, gnu_hash_lookup junk el symsec hashsec name = Ok (el1, r) /\ loaded_ok content k el1 /\ same_shape el el1.
+Proof. exact gnu_hash_lookup_total. Qed.
+Print Assumptions C18_gnu_hash_lookup.
 
 (* the core table reads under the buffer invariant alone (any header values) *)
 Theorem C18_core_reads :
